@@ -19,7 +19,7 @@ META = {
     'level_text': ('Seeded pairs (recorded program P, replayed program P\') where P\' is P or P after 1-3 behavioural edits '
                    '(changed output argument, dropped / added / swapped output call, raise instead of return); the '
                    'interpreter journals what the code sent before entering the decorated function, and the Playback must '
-                   'equal those journals entry for entry.  Sampled programs and edits: evidence, not proof. Also: two worker threads sending through one alias under the line-level scheduler (recording and replay), replaying recorders with a failed replay in their history, unserializable exceptions raised earlier in the process, and the recording as filled by the recorder (live objects, no serializer) compared with what was sent.'),
+                   'equal those journals entry for entry.  Sampled programs and edits: evidence, not proof. Also: two worker threads sending through one alias under the line-level scheduler (recording and replay), replaying recorders with a failed replay in their history, unserializable exceptions raised earlier in the process, and the recording as filled by the recorder (live objects, no serializer) compared with what was sent. Outputs whose result is optional in replay, and recording switched off midway (no recording may then claim the run).'),
     'level_note': 'Trusted: interpreter journal of sent outputs; faithful-domain guard. No schedule or fault dimension: the simulator contributes restart over three cassette types.',
     'rule': ('evaluation = one pair (P, P\') recorded and replayed over a real cassette; non-trivial = P\' made at least one '
              'output call and the replay completed; distinct = distinct event-log digest (programs, edits, both journals).'),
